@@ -42,9 +42,6 @@ structure Hit2 (K : Type) where
   fkind : Nat := 0
   fidx : Nat := 0
 
-/-- nalgebra `normalize`: `self.unscale(self.norm())` -/
-@[inline] def V3.normalize (v : V3 K) : V3 K := v.sdiv v.norm
-@[inline] def V2.normalize (v : V2 K) : V2 K := v.sdiv v.norm
 
 /-- `RayIntersection::transform_by` : normal rotated, toi unchanged -/
 @[inline] def Hit3.transformBy (h : Hit3 K) (m : Iso3 K) : Hit3 K := { h with n := m.rot h.n }
